@@ -565,7 +565,8 @@ func tdescEqual(a, b *tdesc) bool {
 	return string(x) == string(y)
 }
 
-func runQuery(c *lib.Ctx, d *gdesc, q qdesc, withCase bool, tag string) {
+// runQuery returns what the implementation reported (sorted label strings).
+func runQuery(c *lib.Ctx, d *gdesc, q qdesc, withCase bool, tag string) []string {
 	after := buildGraph(1, d)
 	var before *built
 	ds := []*gdesc{d}
@@ -683,7 +684,7 @@ func runQuery(c *lib.Ctx, d *gdesc, q qdesc, withCase bool, tag string) {
 	nontrivial := len(base) > 0 && len(tiers[0].dist) > len(base)
 	if !withCase {
 		c.Eval(js, key, nontrivial)
-		return
+		return repList
 	}
 	level := lib.Z(int64(q.Level))
 	if before != nil {
@@ -692,6 +693,7 @@ func runQuery(c *lib.Ctx, d *gdesc, q qdesc, withCase bool, tag string) {
 	} else {
 		c.Case(lib.App("CChanges", after.coq(n), lib.StrList(q.Files), level, lib.Bool(q.IncSub), lib.NList(repIDs)), js, key, nontrivial)
 	}
+	return repList
 }
 
 // ------------------------------------------------------------------------------------------------
@@ -1035,7 +1037,11 @@ func main() {
 			"subrepo targets with a defining target, subincludes, include/exclude labels, 1 in 12 targets with entries owned by another package; " +
 			"per graph several queries: 1-4 changed files (consumed files, files below directory sources, BUILD files, near misses, unowned and absolute paths), " +
 			"level in {0,-1,1,2,3,-2}, include_subrepos, every third query a before/after graph pair derived by definition edits (command, source, label, dependency, " +
-			"out-of-repo tool, data, added and removed targets, config). distinct = distinct (graph, query); non-trivial = some target is directly affected and some other target depends on it")
+			"out-of-repo tool, data, added and removed targets, config). distinct = distinct (graph, query); non-trivial = some target is directly affected and some other target depends on it. " +
+			"End to end (needs the plz binary): generated repositories (harness/e2e: up to 4 packages incl. a nested one, genrule / filegroup / text_file targets over files and labels, " +
+			"2 in 3 with a directory source holding nested files) committed to a git work tree, 1-3 random edits (file contents, files under the directory source, sources added / dropped / swapped, commands, " +
+			"outputs, comments, targets added / removed, unused files) committed on top; real `plz query changes --since HEAD~1 --level N` and `plz query changes --level N <changed files>` " +
+			"compared with query.DiffGraphs / query.Changes in process on a mirror of the two states (each also a model case) and with `plz hash //...` of both states")
 		var replay caseJS
 		if c.ReadReplay(&replay) && replay.Graph != nil {
 			runQuery(c, replay.Graph, replay.Query, true, "replay")
@@ -1051,6 +1057,7 @@ func main() {
 			d := generate(r)
 			runGraph(c, r, d, fmt.Sprint("g", i), c.Scale(10, 12))
 		}
+		runE2E(c)
 		c.Note("a reported target that the reference does not require is not a violation (histogram extra_reported counts them per query)")
 	})
 }
